@@ -517,6 +517,18 @@ void QXmppTransferIncomingJob::connectToNextHost()
 
 void QXmppTransferIncomingJob::connectToHosts(const QXmppByteStreamIq &iq)
 {
+    // A connection attempt started by an earlier stream host offer is still in progress. That offer
+    // is answered when the attempt ends; taking over the new offer here would overwrite its id, so
+    // that the earlier request would never be answered (RFC 6120, 8.2.3). Refuse the new one.
+    if (m_candidateClient) {
+        QXmppIq response(QXmppIq::Error);
+        response.setId(iq.id());
+        response.setTo(iq.from());
+        response.setError(QXmppStanza::Error(QXmppStanza::Error::Cancel, QXmppStanza::Error::UnexpectedRequest));
+        d->client->sendPacket(response);
+        return;
+    }
+
     m_streamCandidates = iq.streamHosts();
     m_streamOfferId = iq.id();
     m_streamOfferFrom = iq.from();
